@@ -657,6 +657,9 @@ func driverCorrupt(c *Ctx) {
 			}
 			hasItem = true
 		}
+		if i%10 == 7 {
+			item, hasItem = ast.NewListNode(item, ast.NewListNode(ast.NewBooleanNode(true))), true // (see after-deep-refusals)
+		}
 		base := buildComplete(g, gm, item, 0).ToBytes()
 		variants := [][]byte{base}
 		names := []string{"valid"}
@@ -843,10 +846,10 @@ func deepRefusals(g *Gen) {
 		for j := 0; j < depth; j++ {
 			t = append(t, 0x01, 0x01)
 		}
-		switch k % 4 {
-		case 0:
+		switch k % 8 {
+		case 0, 4, 6:
 			t = append(t, 0x91, 0x04, 0x7F, 0xC0, 0, 0) // F4 NaN
-		case 1:
+		case 1, 3, 5:
 			t = append(t, 0x81, 0x08, 0x7F, 0xF0, 0, 0, 0, 0, 0, 0) // F8 +Inf
 		case 2:
 			t = append(t, 0x41, 0x02, 0x80, 0x41) // a byte that is not 7-bit ASCII
